@@ -127,6 +127,26 @@ def _derived_input_domain(text, rec):
     return False
 
 
+def _copy_rule_in_trace(text, flags, rec):
+    try:
+        import semcheck
+        stages = []
+        semcheck.run_optimize(text, rec.get("inp", "auto"), rec.get("outp", "auto"), flags,
+                              trace=lambda stage, it, prg: stages.append((stage, list(prg))))
+        for (s0, p0), (s1, _) in zip(stages, stages[1:]):
+            if s1 != "unused":
+                continue
+            for stm in p0:
+                if stm.ast_type == ASTType.Rule and stm.head.ast_type == ASTType.Literal and len(stm.body) == 1 and \
+                        stm.head.atom.ast_type == ASTType.SymbolicAtom and stm.head.atom.symbol.ast_type == ASTType.Function:
+                    hv = [a.name for a in stm.head.atom.symbol.arguments if a.ast_type == ASTType.Variable]
+                    if len(hv) != len(set(hv)):
+                        return True
+    except Exception:  # noqa
+        return False
+    return False
+
+
 def falsified(text, flags, rec=None):
     prg = corpus.parses(text) or []
     keys = set()
@@ -142,6 +162,26 @@ def falsified(text, flags, rec=None):
             # D8: negated chain
             if lit.atom.ast_type == ASTType.Comparison and lit.sign != Sign.NoSign and len(lit.atom.guards) >= 2:
                 keys.add("Hyp_no_neg_chain")
+        # D3, transitively: the equalities of one body depend on each other in a cycle ('Y = X*3, X = Y+1'): inlining them
+        # one after the other substitutes a variable into its own definition (the same missing occurs check)
+        deps = {}
+        compound = False
+        for lit in lits:
+            for v, t in is_eq_lit(lit):
+                deps.setdefault(v, set()).update(x for x in variables(t) if x != v)
+                compound = compound or t.ast_type != ASTType.Variable
+
+        def _reach(a, b, seen):
+            for n in deps.get(a, ()):
+                if n == b:
+                    return True
+                if n not in seen:
+                    seen.add(n)
+                    if _reach(n, b, seen):
+                        return True
+            return False
+        if compound and any(_reach(v, v, set()) for v in deps):
+            keys.add("Hyp_occurs_check")
         # D5: non-unit coefficients / non-linear arithmetic next to math (in comparisons or ex-lined atom arguments)
         if "math" in on:
             for n in walk(stm):
@@ -326,6 +366,10 @@ def falsified(text, flags, rec=None):
         # predicate that is not static, and the result does use domain predicates
         if "Hyp_dom_positive" not in keys and "__dom_" in rec["result"] and _antitone_domain_rule(text, rec):
             keys.add("Hyp_dom_positive")
+    # D31 at the call site: the program handed to `unused` in the failing run contains a copy rule whose head repeats a
+    # variable (an earlier pass - cleanup removing an implied literal - may have produced it from a longer rule)
+    if "unused" in on and rec is not None and "Hyp_copy_distinct_head_vars" not in keys and _copy_rule_in_trace(text, flags, rec):
+        keys.add("Hyp_copy_distinct_head_vars")
     # D38: a declared input predicate that is also derived gets a domain computed from its rules alone
     if rec is not None and rec.get("result") and "__dom_" in rec["result"] and _derived_input_domain(text, rec):
         keys.add("Hyp_inputs_underived")
